@@ -109,5 +109,5 @@ def r3_3(ctx):
 
 def run(ctx):
     ctx.run_rule("R3.1", TEXT["R3.1"], _mk("R3.1"), floor=9)
-    ctx.run_rule("R3.2", TEXT["R3.2"], _mk("R3.2"), floor=1)
+    ctx.run_rule("R3.2", TEXT["R3.2"], _mk("R3.2"), floor=2)
     ctx.run_rule("R3.3", "look-ahead: called on (L, LINES, E); expectation search from E+1 preferred over the line search from L+1; both return the first hit >= start [E-FLOW, E-PATH]", lambda ctx: (report(ctx, {"R3.3"}), r3_3(ctx)), floor=12)
